@@ -258,7 +258,26 @@ func stressInherit(r *hx.Run, f []string) {
 
 // region sets /////////////////////////////////////////////////////////////////////////////////////////////////////
 
-func randomSetWrite(rng *hx.Rng, s reactive.Set[int]) {
+// randomSetWrite makes one write to s; with peers given, some writes take another (concurrently written) set of the
+// scenario, or s itself, as their argument.
+func randomSetWrite(rng *hx.Rng, s reactive.Set[int], peers ...reactive.Set[int]) {
+	if len(peers) > 0 && rng.Chance(1, 4) {
+		arg := hx.Pick(rng, peers)
+		switch x := rng.Intn(10); {
+		case x < 6:
+			s.Replace(arg)
+		case x < 7:
+			s.Replace(arg.ReadOnly())
+		case x < 8:
+			s.Replace(s)
+		case x < 9:
+			s.AddAll(arg)
+		default:
+			s.DeleteAll(arg)
+		}
+
+		return
+	}
 	switch x := rng.Intn(100); {
 	case x < 35:
 		s.Add(rng.Range(1, 5))
@@ -315,7 +334,7 @@ func stressDSet(r *hx.Run, f []string) {
 			s := srcs[i]
 			jobs = append(jobs, func() {
 				for it := 0; it < iters; it++ {
-					randomSetWrite(wr, s)
+					randomSetWrite(wr, s, srcs...)
 				}
 			})
 		}
@@ -364,11 +383,12 @@ func stressSub(r *hx.Run, f []string) {
 		} else {
 			create()
 		}
-		for _, s := range append([]reactive.Set[int]{src}, others...) {
+		allSets := append([]reactive.Set[int]{src}, others...)
+		for _, s := range allSets {
 			wr, _ := rng.Fork()
 			jobs = append(jobs, func() {
 				for it := 0; it < iters; it++ {
-					randomSetWrite(wr, s)
+					randomSetWrite(wr, s, allSets...)
 				}
 			})
 		}
